@@ -286,3 +286,72 @@ func VerifC11Bucket() {
 		verifReach("not-matched")
 	}
 }
+
+// verifMapCache11 is a result cache honouring the agdcache contract.
+type verifMapCache11 struct {
+	keys []internal.CacheKey
+	vals []*cacheItem
+}
+
+func (c *verifMapCache11) Set(k internal.CacheKey, v *cacheItem) {
+	for i := range c.keys {
+		if c.keys[i] == k {
+			c.vals[i] = v
+			return
+		}
+	}
+	c.keys, c.vals = append(c.keys, k), append(c.vals, v)
+}
+func (c *verifMapCache11) SetWithExpire(k internal.CacheKey, v *cacheItem, _ timeDuration) { c.Set(k, v) }
+func (c *verifMapCache11) Get(k internal.CacheKey) (*cacheItem, bool) {
+	for i := range c.keys {
+		if c.keys[i] == k {
+			return c.vals[i], true
+		}
+	}
+	return nil, false
+}
+func (c *verifMapCache11) Clear()   { c.keys, c.vals = nil, nil }
+func (c *verifMapCache11) Len() int { return len(c.keys) }
+
+// VerifC11CachedTypes: with the result cache on, a host is filtered for A, AAAA and
+// HTTPS questions only, whatever was asked for the same host before: a verdict cached
+// for an address question is not handed to a TXT, MX or CNAME question, and the other
+// way round.
+//
+//verif:harness name=H11j-cached-types tier=quick,thorough bounds="listed host and unlisted host; 2..3 consecutive questions with types from {A, AAAA, HTTPS, TXT, MX, CNAME} through one filter with a result cache" reach=done,filtered,not-filtered maxpaths=20000
+//verif:assume the result cache is a stub honouring the agdcache contract; SHA-256 computed for the concrete host names
+func VerifC11CachedTypes() {
+	hashes, err := NewStorage("bad.example.com\n")
+	verifAssume(err == nil)
+	f := &Filter{
+		logger:   slogutil.NewDiscardLogger(),
+		cloner:   dnsmsg.NewCloner(dnsmsg.EmptyClonerStat{}),
+		mu:       &sync.RWMutex{},
+		hashes:   hashes,
+		metrics:  internal.EmptyMetrics{},
+		resCache: &verifMapCache11{},
+		id:       internal.IDSafeBrowsing,
+		repFQDN:  "safe.example.",
+	}
+	msgs, cerr := dnsmsg.NewConstructor(&dnsmsg.ConstructorConfig{Cloner: f.cloner, BlockingMode: &dnsmsg.BlockingModeNullIP{}, StructuredErrors: &dnsmsg.StructuredDNSErrorsConfig{}, FilteredResponseTTL: 10_000_000_000})
+	verifAssume(cerr == nil)
+	host := []string{"bad.example.com", "good.example.com"}[verifChoice(2)]
+	qts := []uint16{dns.TypeA, dns.TypeAAAA, dns.TypeHTTPS, dns.TypeTXT, dns.TypeMX, dns.TypeCNAME}
+	n := 2 + verifChoice(2)
+	for i := 0; i < n; i++ {
+		qt := qts[verifChoice(len(qts))]
+		req := &dns.Msg{}
+		req.SetQuestion(dns.Fqdn(host), qt)
+		r, ferr := f.FilterRequest(context.Background(), &internal.Request{DNS: req, Messages: msgs, Host: host, QType: qt, QClass: dns.ClassINET})
+		verifAssert("no-error", ferr == nil)
+		filterable := qt == dns.TypeA || qt == dns.TypeAAAA || qt == dns.TypeHTTPS
+		verifAssert("filtered-iff-address-question-and-listed", (r != nil) == (filterable && host == "bad.example.com"))
+		if r != nil {
+			verifReach("filtered")
+		} else {
+			verifReach("not-filtered")
+		}
+	}
+	verifReach("done")
+}
